@@ -114,3 +114,15 @@ Definition run_c11_tree (s : sx) : sx :=
       end
   | _ => bad_request
   end.
+
+(* [nodes T root] -> BFS orientation of T from root only (no optimality check); error 1 = root not a node *)
+Definition run_c11_bfs (s : sx) : sx :=
+  match s with
+  | SL [sn; st; sr] =>
+      match sx_list sx_nat sn, sx_list sx_edge st, sx_nat sr with
+      | Some ns, Some T, Some r =>
+          if memn r ns then sx_ok (of_list of_edge (bfs_orient ns T r)) else sx_err 1
+      | _, _, _ => bad_request
+      end
+  | _ => bad_request
+  end.
